@@ -59,6 +59,7 @@ PROPS['C13']={
  'obligations':[{'name':'determinism','module':'harness.C13','cls':'Determinism','quick':{'nlinks':2},'thorough':{'nlinks':3}},
                 {'name':'determinism_3links','module':'harness.C13','cls':'Determinism','quick':{'nlinks':3,'all_valid':True,'rate':400},'thorough':{'nlinks':3,'all_valid':True,'rate':400}},
                 {'name':'determinism_two_steps','module':'harness.C13','cls':'Determinism','tier_only':'thorough','quick':{},'thorough':{'nlinks':2,'two_steps':True}},
+                {'name':'determinism_duplicate_signatures','module':'harness.C13','cls':'Determinism','quick':{'nlinks':1,'nsig':2},'thorough':{'nlinks':2,'nsig':2}},
                 {'name':'rule_engine_digest_tables','module':'harness.C03','cls':'Rules','quick':{'group':'algs','rate':4},'thorough':{'group':'algs','rate':2}}]}
 
 PROPS['C15']={
@@ -71,6 +72,7 @@ PROPS['C08']={
  'bounds_statement':'in_toto_verify from MIR with a ghost event log behind the two side-effecting calls (in_toto_run, fs::write): every combination of stage failures (owner signature, expiry, missing / badly signed link, failing step rule) x inspection outcomes (spawn error, any i32 exit status, products, inspection rules) within the shape bound.',
  'assumptions':PIPE_ASSUME+['the inspection subprocess and the files it touches are outside the claim; the stub returns what runlib documents: Err or a link with Some(exit status)'],
  'obligations':[{'name':'inspections','module':'harness.C08','cls':'Inspections','quick':{'ninsp':1},'thorough':{'ninsp':2}},
+                {'name':'inspections_after_two_steps','module':'harness.C08','cls':'Inspections','quick':{'ninsp':1,'two_steps':True},'thorough':{'ninsp':2,'two_steps':True}},
                 {'name':'sublayout_inspection','module':'harness.C08','cls':'SublayoutInspection','quick':{},'thorough':{}}]}
 
 UNIT_ASSUME=['std/dependency calls replaced by the listed models (coverage.trusted_base); every run replays sampled paths natively against the real crate and compares outcomes',
